@@ -44,7 +44,7 @@ static struct lnode *find_victim(struct thr *t, uint64_t key, unsigned long hash
 {
 	cds_lfht_lookup(g_ht, hash, match_fn, &key, it);
 	struct cds_lfht_node *nd = cds_lfht_iter_get_node(it);
-	VP_STORE(t->n_lookup, t->n_lookup + 1);
+	VP_STORE(g_cum[t->idx].n_lookup, g_cum[t->idx].n_lookup + 1);
 	while (nd && steps-- > 0) {
 		struct cds_lfht_iter nx = *it;
 		cds_lfht_next_duplicate(g_ht, match_fn, &key, &nx);
@@ -93,7 +93,7 @@ static void do_del(struct thr *t, uint64_t key, int steps)
 	int ret = cds_lfht_del(g_ht, &n->node);
 	others |= att_others(l, t);
 	att_set(l, t, 0);
-	VP_STORE(t->n_upd, t->n_upd + 1);
+	VP_STORE(g_cum[t->idx].n_upd, g_cum[t->idx].n_upd + 1);
 	(void) steps0;
 	if (ret == 0)
 		own(t, n, OP_DEL, others);
@@ -127,7 +127,7 @@ static void do_replace(struct thr *t, uint64_t key)
 	int ret = cds_lfht_replace(g_ht, &it, nn->hash, match_fn, &key, &nn->node);
 	others |= att_others(l, t);
 	att_set(l, t, 0);
-	VP_STORE(t->n_upd, t->n_upd + 1);
+	VP_STORE(g_cum[t->idx].n_upd, g_cum[t->idx].n_upd + 1);
 	if (ret == 0) {
 		life_of_id(nn->id)->inserted = 1;
 		own(t, old, OP_REPLACE, others);
@@ -147,7 +147,7 @@ static void do_add_replace(struct thr *t, uint64_t key)
 	struct cds_lfht_node *ret = cds_lfht_add_replace(g_ht, nn->hash, match_fn, &key, &nn->node);
 	if (key < MAXHOT)
 		__atomic_store_n(&g_katt[key].b[t->idx & 7], 0, __ATOMIC_RELAXED);
-	VP_STORE(t->n_upd, t->n_upd + 1);
+	VP_STORE(g_cum[t->idx].n_upd, g_cum[t->idx].n_upd + 1);
 	life_of_id(nn->id)->inserted = 1;
 	if (ret) {
 		struct lnode *old = caa_container_of(ret, struct lnode, node);
@@ -162,7 +162,7 @@ static void do_add_unique(struct thr *t, uint64_t key)
 {
 	struct lnode *nn = node_new(t, key);
 	struct cds_lfht_node *ret = cds_lfht_add_unique(g_ht, nn->hash, match_fn, &key, &nn->node);
-	VP_STORE(t->n_upd, t->n_upd + 1);
+	VP_STORE(g_cum[t->idx].n_upd, g_cum[t->idx].n_upd + 1);
 	if (ret == &nn->node)
 		life_of_id(nn->id)->inserted = 1;
 	else {
@@ -192,7 +192,7 @@ static void *cont_main(struct thr *t)
 				struct lnode *nn = node_new(t, dk);
 				cds_lfht_add(g_ht, nn->hash, &nn->node);
 				life_of_id(nn->id)->inserted = 1;
-				VP_STORE(t->n_upd, t->n_upd + 1);
+				VP_STORE(g_cum[t->idx].n_upd, g_cum[t->idx].n_upd + 1);
 			} else
 				do_del(t, dk, (int) vp_rand_n(&t->rng, 4));
 		}
@@ -226,7 +226,7 @@ static void upd_del_one(struct thr *t, struct lnode **mine, long *pop, long j)
 	t->st_attempts++;
 	int ret = cds_lfht_del(g_ht, &n->node);
 	att_set(l, t, 0);
-	VP_STORE(t->n_upd, t->n_upd + 1);
+	VP_STORE(g_cum[t->idx].n_upd, g_cum[t->idx].n_upd + 1);
 	if (ret) {
 		vp_violation("lfht:owner:sole-remover-failed", "cfg=%s round=%llu {%s}: cds_lfht_del by the only remover of node id=%llx returned %d",
 			     g_cfgname, (unsigned long long) g_round, g_rc.str, (unsigned long long) id, ret);
@@ -241,8 +241,8 @@ static void upd_add_one(struct thr *t, struct lnode **mine, long *pop, uint64_t 
 {
 	uint64_t key = UPD_BASE * (uint64_t) (t->idx + 1) + (*seq)++;
 	struct lnode *nn = node_new(t, key);
-	if (same_hash)
-		nn->hash = (unsigned long) mix64((uint64_t) t->idx + 77) & g_rc.hmask;
+	if (same_hash)	/* same bucket at every table size in use, distinct hashes: the chain length grows */
+		nn->hash = ((unsigned long) mix64((uint64_t) t->idx + 77) & 0xff) | ((unsigned long) (*seq & 0xfff) << 44);
 	rcu_read_lock();
 	if (vp_rand_n(&t->rng, 4) == 0) {
 		struct cds_lfht_node *ret = cds_lfht_add_unique(g_ht, nn->hash, match_fn, &key, &nn->node);
@@ -255,7 +255,7 @@ static void upd_add_one(struct thr *t, struct lnode **mine, long *pop, uint64_t 
 		cds_lfht_add(g_ht, nn->hash, &nn->node);
 	rcu_read_unlock();
 	life_of_id(nn->id)->inserted = 1;
-	VP_STORE(t->n_upd, t->n_upd + 1);
+	VP_STORE(g_cum[t->idx].n_upd, g_cum[t->idx].n_upd + 1);
 	mine[(*pop)++] = nn;
 }
 
@@ -345,7 +345,7 @@ static void *resident_main(struct thr *t)
 		rcu_read_unlock();
 		if (sz < 1 || sz > g_ht->max_nr_buckets || !is_pow2(sz))
 			check_size_bounds(g_ht, sz, "by a reader before its lookup");
-		VP_STORE(t->n_lookup, t->n_lookup + 1);
+		VP_STORE(g_cum[t->idx].n_lookup, g_cum[t->idx].n_lookup + 1);
 		n++;
 		if ((n & 15) == 0)
 			vp_rcu_qs();
@@ -437,7 +437,7 @@ static void *walk_main(struct thr *t)
 				}
 				t->st_validations += (uint64_t) nh;
 			}
-			VP_STORE(t->n_lookup, t->n_lookup + 1);
+			VP_STORE(g_cum[t->idx].n_lookup, g_cum[t->idx].n_lookup + 1);
 		}
 		rcu_read_unlock();
 		vp_rcu_qs();
